@@ -254,10 +254,11 @@ def case_pergrid(col, p):
     d, G = p['d'], p['G']
     # a different grid on every axis, also for 3-point grids (where the uniform and the default grid coincide)
     rot = p.get('rot', 0)
-    grids = [np.array([0.0] + [((j + 1.0) / (G - 1)) ** (1.0 + 0.35 * ((k + rot) % 6) - 0.5 * (rot % 2)) for j in range(G - 2)] + [1.0]) for k in range(6)]
+    Gk = [G + (p['lens'][k] if p.get('lens') else 0) for k in range(6)]        # optionally a different number of grid points on every axis
+    grids = [np.array([0.0] + [((j + 1.0) / (Gk[k] - 1)) ** (1.0 + 0.35 * ((k + rot) % 6) - 0.5 * (rot % 2)) for j in range(Gk[k] - 2)] + [1.0]) for k in range(6)]
     fgs = [RD.fgrid(g) for g in grids]
-    shape = (G,) * d
-    N = G ** d
+    shape = tuple(Gk[:d])
+    N = int(np.prod(shape))
     ops = []
     if d < 5 and d >= 2:
         for pr in props_lattice(d - 1, 2):
@@ -272,6 +273,7 @@ def case_pergrid(col, p):
             ops.append(('remove', dest))
     n = 0
     lo, hi = p['units']
+    hi = min(hi, N)
     for j in range(lo, hi):
         e = np.zeros(N)
         e[j] = 1.0
@@ -316,7 +318,7 @@ def case_pergrid(col, p):
             else:
                 col.observe('value_pergrid', err / (1e-12 * sc))
     col.tick(states=n, traces=n)
-    col.distinct('nontrivial', ('pergrid', d, G, lo, p.get('rot', 0)))
+    col.distinct('nontrivial', ('pergrid', d, G, lo, p.get('rot', 0), tuple(p.get('lens') or ())))
 
 
 def case_accept_reject(col, p):
@@ -401,6 +403,37 @@ def case_layout(col, p):
             n += 1
             if not np.allclose(got, exp, rtol=1e-14, atol=0):
                 col.violation('C06:remove:layout_dependent', dict(p, k=k, layout=vn), '')
+    # every pulse and every constructor on the same density held in each layout (a pulse right after reorder_pops receives a transposed view):
+    # the returned density equals the one obtained from a contiguous copy
+    ops = []
+    if d >= 2:
+        for dest in range(d):
+            kk = 1 if d == 2 else d - 1
+            ops.append(('pulse', dest, tuple([0.25] + [0.125] * (kk - 1))))
+    if d <= 4:
+        ops.append(('admix_new', tuple([0.25] + [0.125] * (d - 2))) if d >= 2 else ('split', 0))
+        ops.append(('split', d - 1))
+    for op in ops:
+        exp = np.array(impl_apply(op, base.copy(), [xx] * 6))
+        for vn, arr in variants.items():
+            if vn == 'C':
+                continue
+            inp = arr.copy(order='K') if vn != 'strided' else arr.copy()
+            # rebuild the layout on a private buffer (pulses work in place)
+            if vn == 'F':
+                inp = np.asfortranarray(base)
+            elif vn == 'T':
+                inp = base.transpose(list(range(d))[::-1]).copy().transpose(list(range(d))[::-1])
+            else:
+                big2 = np.zeros((2 * G,) * d)
+                big2[tuple(slice(None, None, 2) for _ in range(d))] = base
+                inp = big2[tuple(slice(None, None, 2) for _ in range(d))]
+            got = np.array(impl_apply(op, inp, [xx] * 6))
+            col.tick(transitions=1)
+            n += 1
+            if got.shape != exp.shape or not np.allclose(got, exp, rtol=1e-13, atol=0):
+                col.violation('C06:%s:layout_dependent' % (pulse_func(d, op[1])[0].__name__ if op[0] == 'pulse' else op[0]), dict(p, op=op, layout=vn),
+                              {'maxdiff': float(np.abs(got - exp).max()) if got.shape == exp.shape else 'shape'})
     col.tick(states=n, traces=n)
     col.distinct('nontrivial', ('layout', d))
 
@@ -446,6 +479,14 @@ def run(ctx):
                     if ctx.quick and d == 5 and (lo // chunk) % 3:
                         continue
                     cases.append({'kind': 'pergrid', 'd': d, 'G': Gp, 'seed': ctx.seed, 'rot': rot, 'units': (lo, min(Np, lo + chunk))})
+            # axes of different lengths (each population on its own number of grid points), two length patterns
+            for lens in ([0, 1, 2, 1, 0, 1], [2, 0, 1, 0, 2, 1]):
+                Nl = int(np.prod([Gp + lens[k] for k in range(d)]))
+                step = Nl if d <= 3 else 64
+                for lo in range(0, Nl, step):
+                    if ctx.quick and d >= 4 and (lo // step) % 4:
+                        continue
+                    cases.append({'kind': 'pergrid', 'd': d, 'G': Gp, 'seed': ctx.seed, 'rot': 0, 'lens': lens, 'units': (lo, min(Nl, lo + step))})
         cases.append({'kind': 'layout', 'd': d, 'seed': ctx.seed})
     from mc.evidence import Collector
     a, b = Collector(), Collector()
